@@ -234,6 +234,14 @@ func (r *runner) run(im *image) {
 	readers := []string{"gpt", "part"}
 	if im.mbr {
 		readers = append(readers, "mbr")
+		// the Table level: mbr.Read / partition.Read with sector sizes of the caller's choosing (picked from the
+		// image id, so that no draw of the image generator moves)
+		h := uint64(1469598103934665603)
+		for _, ch := range []byte(im.id) {
+			h = (h ^ uint64(ch)) * 1099511628211
+		}
+		ss := []int{0, -1, 512, 4096, 1024, 520, 65536}
+		readers = append(readers, fmt.Sprintf("mbrt:%d:%d", ss[h%7], ss[(h/7)%7]), fmt.Sprintf("partt:%d", ss[(h/49)%7]))
 	}
 	for _, rd := range readers {
 		id := im.id + "/" + rd
@@ -279,7 +287,14 @@ func (r *runner) run(im *image) {
 		// model correspondence whenever the real reader produced an outcome
 		if a.Class == "ok" || a.Class == "err" || a.Class == "panic" {
 			op := map[string]string{"gpt": "gpt.read", "part": "part.read", "mbr": "mbr.read"}[rd]
-			c.Case(id, op, "cfg="+r.cfg.String(), fmt.Sprintf("size=%d", im.size), fmt.Sprintf("lss=%d", im.lss), "dev="+dev)
+			var a1, a2 int
+			if n, _ := fmt.Sscanf(rd, "mbrt:%d:%d", &a1, &a2); n == 2 {
+				c.Case(id, "mbr.readt", fmt.Sprintf("size=%d", im.size), fmt.Sprintf("lbs=%d", a1), fmt.Sprintf("pbs=%d", a2), "dev="+dev)
+			} else if n, _ := fmt.Sscanf(rd, "partt:%d", &a2); n == 1 {
+				c.Case(id, "part.readt", "cfg="+r.cfg.String(), fmt.Sprintf("size=%d", im.size), fmt.Sprintf("lss=%d", im.lss), fmt.Sprintf("pbs=%d", a2), "dev="+dev)
+			} else {
+				c.Case(id, op, "cfg="+r.cfg.String(), fmt.Sprintf("size=%d", im.size), fmt.Sprintf("lss=%d", im.lss), "dev="+dev)
+			}
 			if a.Class == "panic" {
 				c.Impl(id, "res=panic")
 			} else {
